@@ -71,8 +71,12 @@ def _judge(ctx, tag):
     """S3 + probes on the files of the last run; returns s2 diffs"""
     cases = _read(ctx, "cases.txt")
     _, s3 = ctx.diff_lines("impl.txt", "spec.txt", limit=8)
+    seen_programs = set()
     for (ln, a, b) in s3:
         prog = _program_of(cases, ln)
+        if prog and prog[0] in seen_programs:
+            continue  # later differences in the same program are consequences of its first one
+        seen_programs.add(prog[0] if prog else None)
         op = cases[ln - 1].split(" ")[0] if ln - 1 < len(cases) else "?"
         ctx.violation("c17-result-" + op,
                       "catalog op result differs from the atomic-map specification at op %r (program %s): impl=%s spec=%s"
